@@ -12,12 +12,20 @@ PROP = Property(
         "aggregator_authenticator", "verus/C16/aggregator_authenticator.tmpl.rs",
         "extracted text of the aggregator side: SingleSignatureAuthenticator::authenticate marks a submission Authenticated EXACTLY when the common verification succeeds for the current or, failing that, the next stake distribution, "
         "Unauthenticated otherwise, and touches nothing else of the submission; MultiSignerImpl::verify_single_signature / ..for_next_stake_distribution Ok ==> the common verification accepted it with the epoch service's CURRENT / NEXT multi-signer",
-        ["aggregator SingleSignatureAuthenticator::authenticate", "aggregator MultiSignerImpl::{run_verify_single_signature, verify_single_signature, verify_single_signature_for_next_stake_distribution}"])],
-    replays=[dict(crate="mithril-common", file=MS, module="replays/c16_multi_signer.rs"),
+        ["aggregator SingleSignatureAuthenticator::authenticate", "aggregator MultiSignerImpl::{run_verify_single_signature, verify_single_signature, verify_single_signature_for_next_stake_distribution}"]),
+        VerusUnit(
+        "buffered_certifier", "verus/C16/buffered_certifier.tmpl.rs",
+        "extracted text of the aggregator's BufferedCertifierService::register_single_signature (the buffered path): Buffered ONLY when the decorated certifier found no open message AND the submission was authenticated beforehand, "
+        "and then the signature is in the buffer; a successful answer of the decorated certifier is passed on unchanged; an unauthenticated submission the decorated certifier refused is refused",
+        ["aggregator BufferedCertifierService::register_single_signature"])],
+    replays=[dict(crate="mithril-aggregator", file="mithril-aggregator/src/services/certifier/buffered_certifier.rs", module="replays/c16_buffered.rs"),
+             dict(crate="mithril-common", file=MS, module="replays/c16_multi_signer.rs"),
              dict(crate="mithril-aggregator", file="mithril-aggregator/src/tools/single_signature_authenticator.rs", module="replays/c16_authenticator.rs")],
     assumptions=[
         "PARTIAL: the common verification function, the aggregator's MultiSignerImpl wrappers and its SingleSignatureAuthenticator are under contract; the aggregator's buffered certifier / repository / HTTP and DMQ paths "
         "(async, SQLite), de-duplication and MultiSignerImpl::create_multi_signature (anyhow downcasting) are not decided; storing only accepted signatures is C14's register_single_signature contract",
+        "buffered_certifier unit: anyhow::Error with downcast_ref::<CertifierServiceError>() is an enum (the service error variants or Other); the decorated certifier's answer is an uninterpreted function of (type, signature) "
+        "(its contract is C14's register_single_signature); moving buffered signatures to a new open message (try_register_buffered_signatures_to_current_open_message: re-registration through the decorated certifier) is not under contract",
         "authenticator unit: the aggregator's `Arc<dyn MultiSigner>` is a contract stub whose two methods carry the postconditions proved on MultiSignerImpl in the same unit; RwLock read guard -> reference; debug! / with_context removed",
         "mithril-stm SingleSignature::verify is a callee contract (C01); the registration lookup by slot is a contract of the clerk",
         "entities::SingleSignature is declared with the two fields the function reads (party_id, protocol signature); to_protocol_signature returns that signature",
